@@ -36,7 +36,7 @@ func genC05(thorough bool) func(t *rapid.T) Case {
 			bo.DeepChain = rapid.IntRange(2, 12).Draw(t, "deep_chain")
 			bo.MaxRecipes = 14
 		}
-		c.Base = genCLIBase(t, baseOpts{shapes: names, book: bo, log: LogOpts{MaxDays: 6}})
+		c.Base = genCLIBase(t, baseOpts{shapes: names, book: bo, log: LogOpts{MaxDays: 6}, longNames: true})
 		if rapid.Bool().Draw(t, "with_today") {
 			c.Today = baseDay.AddDate(0, 0, rapid.IntRange(0, 12).Draw(t, "today_off")).Format(defaultDateLayout)
 		}
